@@ -969,6 +969,24 @@ def run_composition_extras(ctx):
             ctx.violation('property', 'pcDelta_grouped_cross(table %s, by=g, condensed=True, bins=0..39, metric=WeightedLevenshtein%s): %s' % (rows, w, why),
                           dict(case=dict(table=rows, weights=list(w)), site=site), site=site)
             return
+    # a table built from an array: INTEGER column labels; a single feature column given by its (non-string) label (seeded change C13-r9m1)
+    import pyrepseq.entropy as en
+    cells = ['x', 'y', 'x', 'x', 'z', 'y', 'x', 'y']
+    dfi = pd.DataFrame([[g_, c_, 7] for g_, c_ in zip('aabbabab', cells)])
+    num = sum(1 for i_ in range(8) for j_ in range(8) if i_ != j_ and cells[i_] == cells[j_])
+    qi = Fraction(num, 56)
+    for lab in (1, np.int64(1)):
+        r = call_impl(en.renyi2_entropy, dfi, lab, base=2.0)
+        ctx.count('composition: integer column label as the single feature')
+        ctx.case(nontrivial_key=('comp-intlabel', repr(lab)))
+        ok = r[0] == 'ok' and abs(2.0 ** (-float(r[1])) - float(qi)) <= 1e-9
+        r2 = call_impl(en.stdrenyi2_entropy, dfi, lab, base=2.0)
+        ok2 = r2[0] == 'ok'
+        if not (ok and ok2):
+            site = 'entropy.renyi2_entropy[integer column label]'
+            ctx.violation('property', 'table with integer column labels 0, 1, 2 (column 1 = %s): renyi2_entropy(df, %r) = %s (pc of that column is %s), '
+                          'stdrenyi2_entropy(df, %r) = %s' % (cells, lab, r, qi, lab, str(r2)[:200]), dict(case=dict(cells=cells, label=repr(lab)), site=site), site=site)
+            return
     # zeros of other types
     rows = [('a', 'AC'), ('a', 'AC'), ('a', 'A'), ('b', 'AC'), ('b', 'C'), ('b', 'C'), ('c', 'AC')]
     df = pd.DataFrame(dict(g=[r[0] for r in rows], s=[r[1] for r in rows]))
